@@ -407,6 +407,7 @@ def run(ctx, mod):
         if f["cid"] not in [cid for cid, _ in failing]:
             failing.append((f["cid"], cases[cids.index(f["cid"])]))
     failing = failing[:64]
+    nonrepro = []
     if failing:
         again = pool_map(ctx, lambda c: _exec_case(ctx, mod, c), [c for _, c in failing],
                          timeout=timeout)
@@ -432,7 +433,12 @@ def run(ctx, mod):
             if st2 == "harness":
                 raise HarnessError(pl2)
             if st2 == "done" and pl2.get("nfails", 0) == 0:
-                raise HarnessError("non-reproducible failure in case %s: %s" % (cid, canon(case)[:300]))
+                # neither alone nor after its history: not reported as a violation.  If the run has violations that DO
+                # reproduce they are reported (exit 1) and this one is only listed in the evidence; a run whose only
+                # failures are non-reproducible ends as a harness error (exit 2) below.
+                nonrepro.append((cid, canon(case)[:300]))
+                report.fails = [f for f in report.fails if f["cid"] != cid]
+                continue
             for f in report.fails:
                 if f["cid"] == cid:
                     f["fkey"] = dict(f.get("fkey") or {}, history_dependent=True)
@@ -440,6 +446,10 @@ def run(ctx, mod):
                                    "executed before it are replayed first -> depends on process history] " % (len(history) - 1)
                                    + f["detail"])
                     f["case"] = {"sequence": history}
+    if nonrepro:
+        if not report.fails:
+            raise HarnessError("non-reproducible failure in case %s: %s" % nonrepro[0])
+        report.coverage["non_reproducible_failures_not_reported"] = [c for c, _ in nonrepro]
     if hasattr(mod, "finish"):
         mod.finish(ctx, report)
     return report
